@@ -222,5 +222,28 @@ pub fn run<C: Ciphersuite, L: Lab<C>>(lab: &mut L, p: &Params) {
     }
     let accepted = if accepted_total == n_alt { 1 } else { 0 };
     lab.check(accepted == 1, "exactly one filling of the round-two slots is the matching one");
+    // ... and part3 may be handed FEWER round-one contributions than part2 saw (a slot lost between the
+    // calls): every non-empty set of emptied slots, with the round-two slots of the same senders
+    // empty as well (the sets agree) or still filled: key generation must not complete for a smaller group
+    for gone in 1usize..(1 << senders.len()) {
+        let mut r1_3: BTreeMap<Identifier<C>, round1::Package<C>> = BTreeMap::new();
+        for (j, s) in senders.iter().enumerate() {
+            if gone & (1 << j) == 0 {
+                r1_3.insert(*s, r1[s].clone());
+            }
+        }
+        for keep_r2 in [false, true] {
+            let mut r2: BTreeMap<Identifier<C>, round2::Package<C>> = BTreeMap::new();
+            for (j, s) in senders.iter().enumerate() {
+                if gone & (1 << j) == 0 || keep_r2 {
+                    if let Some(r) = slot_run[s] {
+                        r2.insert(*s, runs[r].r2[s][&me].clone());
+                    }
+                }
+            }
+            let p3 = dkg::part3(&s2, &r1_3, &r2);
+            lab.check(p3.is_err(), "part3 fails when a round-one slot it is handed is empty (no key material for a smaller group)");
+        }
+    }
     lab.leave();
 }
